@@ -19,10 +19,26 @@ import (
 )
 
 const (
-	repoDir  = "/repo"
 	verifDir = "/verif"
 	modPath  = "github.com/go-critic/go-critic"
 )
+
+// repoDir is /repo; outDir (evidence, replays) is /verif. For experiments on
+// scratch worktrees (seeded changes) both can be redirected with
+// VERIF_REPO / VERIF_OUT; the registered commands never set them.
+var (
+	repoDir = "/repo"
+	outDir  = verifDir
+)
+
+func init() {
+	if v := os.Getenv("VERIF_REPO"); v != "" {
+		repoDir = v
+	}
+	if v := os.Getenv("VERIF_OUT"); v != "" {
+		outDir = v
+	}
+}
 
 type runCtx struct {
 	id             string
